@@ -52,6 +52,33 @@ func buildClientModel(p *Prog, ro *Roles) *clientModel {
 	}
 	if cm.Marshal != nil {
 		cm.CallLit = unwrapAllocThroughLoad(cm.Marshal.Call.Args[0])
+	} else {
+		// the encoder is reached through a repo helper: the call of Send that hands a struct literal to a function from
+		// which json.Marshal / Encoder.Encode is reachable
+		cg := BuildCallGraph(p)
+		for _, cs := range callsIn(cm.Send, false) {
+			c, ok := cs.Instr.(*ssa.Call)
+			t := cs.Common.StaticCallee()
+			if !ok || t == nil || !p.InRepo(t) {
+				continue
+			}
+			enc := false
+			for g := range cg.Reach([]*ssa.Function{t}, false) {
+				for _, c2 := range callsIn(g, false) {
+					if n := c2.Name(); n == "json.Marshal" || n == "json.Encoder.Encode" {
+						enc = true
+					}
+				}
+			}
+			if !enc {
+				continue
+			}
+			for _, a := range cs.Common.Args {
+				if al := unwrapAllocThroughLoad(a); al != nil && derefStruct(al.Type()) != nil {
+					cm.Marshal, cm.CallLit = c, al
+				}
+			}
+		}
 	}
 	for _, a := range cm.Send.AnonFuncs {
 		for _, cs := range callsIn(a, false) {
